@@ -4,6 +4,7 @@ import (
 	"bytes"
 	"encoding/json"
 	"fmt"
+	"strings"
 	"testing"
 	"testing/synctest"
 
@@ -180,6 +181,20 @@ func (e *secretExec) setup() {
 				o.Violate("C19", "plaintext-visible", "the plaintext occurs in the metadata entry "+k, nil)
 			}
 		}
+	}
+	// neither the key nor a long piece of it may be stored
+	for k, v := range m.Iter() {
+		h := nodeHex(v)
+		if strings.Contains(h, fmt.Sprintf("%x", e.p.Key[:16])) || strings.Contains(h, fmt.Sprintf("%x", e.p.Key[16:])) {
+			o.Violate("C19", "key-material-stored", "half of the encryption key occurs in the metadata entry "+k, nil)
+		}
+	}
+	// a value added through one of the two APIs reads back through the other one
+	if xs, xerr := m.GetEncryptedString("k", e.p.Key); xerr != nil || xs != string(e.p.Plain) {
+		o.Violate("C19", "roundtrip", fmt.Sprintf("GetEncryptedString on the stored value: err=%v equal=%v", xerr, xs == string(e.p.Plain)), map[string]string{"api": "string"})
+	}
+	if xb, xerr := m.GetEncryptedBytes("k", e.p.Key); xerr != nil || !bytes.Equal(xb, e.p.Plain) {
+		o.Violate("C19", "roundtrip", fmt.Sprintf("GetEncryptedBytes on the stored value: err=%v equal=%v", xerr, bytes.Equal(xb, e.p.Plain)), map[string]string{"api": "bytes"})
 	}
 	got, err := e.read(m, "k", e.p.Key)
 	e.sig("none", "direct")
